@@ -48,9 +48,7 @@ func c12HostRecognised(start int64) {
 		return
 	}
 	vp.Assert(rd.Type() == filesystem.TypeISO9660, "recognised as ISO9660")
-	if !vp.Symbolic() {
-		println("LABEL:", len(rd.Label()), strings.ReplaceAll(rd.Label(), "\x00", "\\0"))
-	}
+	// KF-C12-5 (fixed by a916757): the identifier came back as 32 bytes, "MYVOLUME" followed by 24 NUL bytes
 	vp.Assert(strings.TrimRight(rd.Label(), " ") == "MYVOLUME", "label")
 	c06HostListing(rd, ".", []string{"DATA.BIN"}, []bool{false})
 	c06HostFile(rd, "DATA.BIN", content)
